@@ -69,6 +69,28 @@ class StrMixin:
             self.pc.append(f_len(s) >= 0)
             self.pc.append((f_len(s) == 0) == (s == th.empty))
             return VList(self.wrap(f_len(s), "int") if False else f_len(s), f_arr(s), "str")
+        if name in ("rsplit", "partition", "rpartition"):
+            # uninterpreted pieces whose concatenation (with the separators) is the string; rsplit with maxsplit=k has at most
+            # k+1 pieces, partition / rpartition exactly three parts
+            if name == "rsplit":
+                sep = self.z(args[0]) if args and args[0] is not None else th.empty
+                k = args[1] if len(args) > 1 else kwargs.get("maxsplit", -1)
+                if not isinstance(k, int):
+                    raise GenError("str.rsplit with symbolic maxsplit")
+                f_len = self.sfun("rsplit%d#len" % k, S, S, Int)
+                f_arr = self.sfun("rsplit%d#arr" % k, S, S, z3.ArraySort(Int, S))
+                n = f_len(s, sep)
+                self.pc.append(z3.And(n >= 1, n <= k + 1) if k >= 0 else n >= 1)
+                if k == 1:
+                    a = f_arr(s, sep)
+                    self.pc.append(z3.If(n == 1, z3.Select(a, 0) == s,
+                                         th.cat(th.cat(z3.Select(a, 0), sep), z3.Select(a, 1)) == s))
+                return VList(n, f_arr(s, sep), "str")
+            sep = self.z(args[0])
+            parts = [self.sfun("%s#%d" % (name, i), S, S, S)(s, sep) for i in range(3)]
+            self.pc.append(th.cat(th.cat(parts[0], parts[1]), parts[2]) == s)
+            self.pc.append(z3.Or(parts[1] == sep, z3.And(parts[1] == th.empty, (parts[2] if name == "partition" else parts[0]) == th.empty)))
+            return tuple(self.wrap(p_, "str") for p_ in parts)
         if name == "replace":
             if th.name == "L1":
                 raise GenError("L1 replace: use the char-map tactic")
